@@ -68,17 +68,19 @@ func strs(m M, k string) []string {
 // dictionary
 
 // Topic names: one is a byte-prefix of another; t3 uses every allowed punctuation character.
-var topicDict = map[string]string{"t1": "a", "t2": "ab", "t3": "a.b-_9", "t4": "abc", "ts": "a/b"}
+// "tc" is the case twin of "t1" (topic names are case-sensitive: two different topics)
+var topicDict = map[string]string{"t1": "a", "t2": "ab", "t3": "a.b-_9", "t4": "abc", "ts": "a/b", "tc": "A"}
 
 // PNFT identifiers: prefix-related and separator-bearing ("/" is the genesis key separator of aol,
 // NUL is the x/nft store key delimiter).
-var denomDict = map[string]string{"n1": "a", "n2": "ab", "n3": "a/b", "nz": "a\x00b"}
-var tokenDict = map[string]string{"i1": "b", "i2": "bc", "i3": "a/b", "iz": "b\x00c", "iy": "c"}
+var denomDict = map[string]string{"n1": "a", "n2": "ab", "n3": "a/b", "nz": "a\x00b", "nc": "A"}
+var tokenDict = map[string]string{"i1": "b", "i2": "bc", "i3": "a/b", "iz": "b\x00c", "iy": "c", "ic": "B"}
 
 var keyTypeDict = map[string]string{
 	"es19": didtypes.ES256K_2019,
 	"es18": didtypes.ES256K_2018,
 	"ed25": didtypes.ED25519_2018,
+	"x20":  "Ed25519VerificationKey2020", // not one of the module's constants; ValidateKeyType admits any non-empty string
 }
 
 func rev(m map[string]string) map[string]string {
